@@ -138,7 +138,7 @@ class Excel:
                 first.title, column_index, None)) for column_index in range(first.column, second.column+1)))
             # a matrix is a list of rows everywhere else (A1:C9), so the columns are turned into rows
             return [list(row) for row in zip(*columns)]
-        elif isinstance(first.row, int) and first.row >= 0 and second.row >= 0:
+        elif isinstance(first.row, int) and isinstance(second.row, int) and first.row >= 0 and second.row >= 0:
             return self._get_matrix(first, second)
         else:
             raise E2PyclParserException('Invalid cell coordinates')
